@@ -1006,6 +1006,20 @@ def rule_count(repo: Repo, rep: Report) -> int:
                 rep.ok("COUNT", init, s, "given explicitly together with order = 2**bits_per_symbol", node=s, nontrivial=False)
                 continue
             st, d, _ = classify(v, ["int(torch.log2(torch.tensor(order, dtype=torch.float)).item())", "int(torch.log2(torch.tensor(self.order, dtype=torch.float)).item())", "int(math.log2(order))", "order.bit_length() - 1"])
+            if st != OK:
+                # unlisted spelling (e.g. through a module-level helper): evaluated for every power of two up to 1024
+                try:
+                    bad_ = None
+                    for b_ in range(1, 11):
+                        fo_ = Folder({"order": 2**b_}, {"self.order": 2**b_})
+                        fo_.funcs = {nm_: f_.node for nm_, f_ in init.module.functions.items()}
+                        got_ = fo_.fold(v)
+                        if got_ != b_:
+                            bad_ = (2**b_, got_)
+                            break
+                    st, d = (OK, "unlisted spelling; equals log2(order) for order = 2 .. 1024") if bad_ is None else (VIOLATION, f"for order {bad_[0]} the number of bits per symbol is computed as {bad_[1]}")
+                except Unfoldable:
+                    pass
             rep.add("COUNT", init, f"{cname}: {unparse(s)[:90]}", st, d or "bits per symbol = log2(order)", node=s)
             n += 1
     # reference modulator built from the demodulator's own arguments
